@@ -28,6 +28,8 @@ func init() {
 func runC12(c *Ctx) {
 	gd := c.Godev()
 	r := c.R
+	// the stored object carries the name it was given
+	c18FSObjectPath(c, gd, "C12.name")
 	h := gd.Func("cmd/telemetrygodev", "handleUpload$1")
 	val := gd.Func("cmd/telemetrygodev", "validate")
 
